@@ -29,6 +29,11 @@ def server_spec(draw, nparts, cap_hi=16):
 @st.composite
 def topology(draw, nparts, max_pods=3, max_racks=3, max_servers=3):
     pods = []
+    if draw(st.integers(0, 2)) == 0:
+        # a third of the cells are small: capacity pressure, limits that
+        # bind, and the same server hit twice in a cycle are common there
+        max_pods, max_racks, max_servers = 1, min(2, max_racks), \
+            min(2, max_servers)
     for _p in range(draw(st.integers(1, max_pods))):
         racks = []
         for _r in range(draw(st.integers(1, max_racks))):
@@ -152,6 +157,30 @@ def op_strategies(nparts, ngroups, profile):
         'freezeflip': st.tuples(idx, st.lists(idx, min_size=1, max_size=2))
         .map(lambda t: ['macro', [['freeze', t[0], t[1]],
                                   ['unfreeze', t[0]]]]),
+        # capacity pressure: low-priority instances sized to the free room
+        'fill': st.tuples(st.just('fill'), st.integers(0, 2),
+                          st.integers(1, 2)).map(list),
+        # macro: the cell is filled up, then two instances of the shape of
+        # one running instance arrive with a high priority in one cycle
+        'fillclone2': st.tuples(st.integers(0, 2), st.integers(1, 2), idx,
+                                st.sampled_from([50, 100]))
+        .map(lambda t: ['macro', [['fill', t[0], t[1]], ['cycle'],
+                                  ['clone', t[2], t[3], [0, 0, 0]],
+                                  ['clone', t[2], t[3], [0, 0, 0]],
+                                  ['cycle']]]),
+        # macro: a loaded server is frozen and same-shape instances of high
+        # priority arrive (pressure on whatever still sits there)
+        'freezepress': st.tuples(idx, idx, idx, st.sampled_from([50, 100]))
+        .map(lambda t: ['macro', [['lfreeze', t[0], []],
+                                  ['clone', t[1], t[3], [0, 0, 0]],
+                                  ['clone', t[2], t[3], [0, 0, 0]],
+                                  ['cycle']]]),
+        # macro: an instance on a server that is not up (frozen / down) has
+        # its allocation changed
+        'notupmove': st.tuples(idx, st.booleans(), idx, st.integers(0, 7))
+        .map(lambda t: ['macro', [['lfreeze', t[0], []] if t[1] else
+                                  ['down', t[0]],
+                                  ['xmove', t[2], t[3]], ['cycle']]]),
         # macro: a renewal is requested early, while the lease still runs
         'renewearly': st.tuples(idx, st.sampled_from([0, 60, 3600]))
         .map(lambda t: ['macro', [['cycle'], ['adv', t[1]] if t[1] else
@@ -159,9 +188,11 @@ def op_strategies(nparts, ngroups, profile):
                                   ['renew', t[0]], ['cycle']]]),
         # macro: two instances of the shape of running ones arrive with a
         # high priority in the same cycle
-        'clone2': st.tuples(idx, idx, st.sampled_from([50, 100]))
+        'clone2': st.tuples(idx, st.one_of(st.none(), idx),
+                            st.sampled_from([50, 100]))
         .map(lambda t: ['macro', [['clone', t[0], t[2], [0, 0, 0]],
-                                  ['clone', t[1], t[2], [0, 0, 0]],
+                                  ['clone', t[0] if t[1] is None else t[1],
+                                   t[2], [0, 0, 0]],
                                   ['cycle']]]),
         # macro: a server is frozen, work goes on, it is un-frozen
         'freezework': st.tuples(idx, ops_app_e1, idx)
@@ -211,7 +242,7 @@ DEFAULT_WEIGHTS = {
     'app': 10, 'clone': 2, 'rm': 2, 'prio': 1, 'move': 1, 'srv': 1, 'rmsrv': 1,
     'readd': 1, 'down': 2, 'up': 2, 'downseq': 0, 'freezeflip': 0,
     'orphanbl': 0, 'orphanrm': 0, 'stalemark': 0, 'renewearly': 0,
-    'clone2': 0, 'freezework': 0, 'renewold': 0, 'freeze': 1, 'unfreeze': 1, 'bl': 1,
+    'clone2': 0, 'fill': 0, 'fillclone2': 0, 'freezepress': 0, 'notupmove': 0, 'freezework': 0, 'renewold': 0, 'freeze': 1, 'unfreeze': 1, 'bl': 1,
     'renew': 1, 'idg': 1, 'rmidg': 1, 'strat': 1, 'adv': 2, 'adv_ret': 1,
     'tick': 1, 'cycle': 8,
 }
